@@ -194,7 +194,7 @@ def judge(ctx, pool, form, ops, tag):
 
 
 def shapes_all():
-    return [(n,) for n in range(0, 6)] + [(h, w) for h in range(0, 5) for w in range(0, 5)]
+    return [(n,) for n in range(0, 6)] + [(h, w) for h in range(0, 5) for w in range(0, 5)] + [(11,), (6, 7), (1, 9), (9, 1), (5, 8)]
 
 
 def operand_for(pool, rng, req, shape, mode):
